@@ -277,6 +277,19 @@ def union_ir(draw, prof, comp_names, depth):
                         first["props"][i][2] = True
                         p[1] = {"k": draw(st.sampled_from(["int", "bool", "num"]))}
                         p[2] = True
+    # sibling object members that declare one key with *different schemas of the same JSON type* (date vs date-time, string vs
+    # enum) cannot be told apart by a decoder that takes the first member whose from_dict does not raise (listed: KF-C11-06 /
+    # KF-C04-02): the key is renamed in the later member, counted by the caller's evidence through the name
+    seen_keys: dict[str, dict] = {}
+    for m in members:
+        if m["k"] != "object":
+            continue
+        for p_ in m.get("props", []):
+            prev = seen_keys.get(p_[0])
+            if prev is not None and prev != p_[1] and _json_class(prev) == _json_class(p_[1]) and not prof.get("ambiguous_object_members"):
+                p_[0] = p_[0] + "Alt"
+            else:
+                seen_keys.setdefault(p_[0], p_[1])
     if not prof.get("closed_union_member"):
         for m in members:
             if m["k"] == "object" and m.get("addl") is False:
